@@ -65,7 +65,7 @@ func RunCase(c CaseSpec, rep *monitor.Report, trace io.Writer) (scans int, err e
 	if c.Pair != "" {
 		return RunPair(c, rep, trace)
 	}
-	k, ok := Profiles[c.Profile]
+	k, ok := ProfileFor(c.Profile)
 	if !ok {
 		return 0, fmt.Errorf("unknown profile %q", c.Profile)
 	}
@@ -133,7 +133,11 @@ func Cases(prop, tier string, seed int64) []CaseSpec {
 			n = e.Thorough
 		}
 		for i := 0; i < n; i++ {
-			out = append(out, CaseSpec{Profile: e.Profile, Seed: seed, Index: i, Pair: e.Pair})
+			prof := e.Profile
+			if tier == "thorough" && e.Pair == "" && i%8 == 7 {
+				prof += "-long"
+			}
+			out = append(out, CaseSpec{Profile: prof, Seed: seed, Index: i, Pair: e.Pair})
 		}
 	}
 	return out
